@@ -25,6 +25,35 @@ CHECKS = {
                      "the reference result of the base pattern, all groups.",
                 note="Same bounds as C01; injected spellings that do not compile are skipped as the property allows. " + TCB,
                 technique="TLC-checked spec lemma + trace validation of injected spellings against the base pattern's reference result"),
+    "C04": dict(level="model_checking", ref="6 C04",
+                text="Every public entry point is recorded on fancy_regex::Regex and on regex::Regex for the same pattern string; TLC requires the two "
+                     "recordings to be equal (the property verbatim) and both equal to Api.tla over RefSem; iterator laws model-checked in MC_Iter.",
+                note="Common-syntax grammar bounded as in C01, plain/(?U)/(?x) spellings; fancy = regex but != spec is reported as a tool error (model gap), never as a verdict. " + TCB,
+                technique="differential recording validated by TLC against the TLA+ API model (Api.tla over RefSem)"),
+    "C08": dict(level="model_checking", ref="6 C08",
+                text="MC_Iter model-checks the Matches state machine for every leaf behaviour allowed by the leaf contract (order, no overlap, termination, "
+                     "sticky error); complete find_iter histories of the real library are validated by TLC against Api!FindIter over RefSem, incl. error histories under tiny backtrack limits.",
+                note="Text length bound in MC_Iter; pattern/text bounds as C01 (+\\G). " + TCB,
+                technique="TLC model checking of the iterator state machine + trace validation of recorded histories"),
+    "C09": dict(level="model_checking", ref="6 C09",
+                text="TLC checks the coherence equations among values recorded from the seven entry points and both iterators on the unrestricted grammar; "
+                     "no reference semantics is involved, so self-references, \\G/\\K and nullable loops are in scope.",
+                note="Bounds: wild grammar to the node bound + random, texts with 1-4 byte characters up to length 3. " + TCB,
+                technique="trace validation of recorded API values against the coherence predicate of the TLA+ API model"),
+    "C10": dict(level="model_checking", ref="6 C10",
+                text="MC_Iter checks the Split/SplitN machines against the partition laws (pieces = matches+1, tiling, remainder, n=0) for every leaf behaviour; "
+                     "recorded piece sequences of split and splitn(0..5) are validated by TLC against RefSplit/RefSplitN over the reference matches.",
+                note="As C08.", technique="TLC model checking of Split/SplitN + trace validation of recorded piece sequences"),
+    "C11": dict(level="model_checking", ref="6 C11",
+                text="Recorded try_replacen results (string, Cow variant, errors) for limits 0..3 x 8 replacers are validated by TLC against RefReplace over the "
+                     "reference matches, with Expand.tla giving the meaning of templates; borrowed results are counted and must equal the number of match-less texts.",
+                note="Texts up to length 2 exhaustively (3 sampled in thorough); pattern bounds as C08. " + TCB,
+                technique="trace validation of recorded replacement results against the TLA+ API/Expand model"),
+    "C12": dict(level="model_checking", ref="6 C12",
+                text="MC_Expand model-checks the template scanner step by step (escape round trip, check soundness, progress, step-wise output = Expansion) for every "
+                     "template up to the bound; recorded outputs of all public expansion entry points, check() and escape() are recomputed by TLC (TraceExpand).",
+                note="Template alphabet of 14 symbols; exhaustive to length 3 (quick) / 4 (thorough), longer templates sampled; three capture fixtures. " + TCB,
+                technique="TLC model checking of the scanner + trace validation of recorded expansions"),
     "C15": dict(level="model_checking", ref="6 C15",
                 text="Conditional grammar (both forms, exhaustive to the node bound) and conditional fillers x contexts (atomic groups, loops, "
                      "look-arounds, other conditions) validated cell by cell against RefSem's conditional clauses, all groups compared.",
